@@ -325,6 +325,21 @@ func (t *fnTrans) effectCall(c *ast.CallExpr) (string, []string, bool) {
 	switch qualName(c, info) {
 	case "encoding/binary.Read":
 		ro, ok := t.readerVar(c.Args[0])
+		prefix := ""
+		if !ok {
+			// a reader made on the spot (bytes.NewReader(x)): bound to a temporary whose rest is dropped
+			if ce, isCall := c.Args[0].(*ast.CallExpr); isCall {
+				switch qualName(ce, info) {
+				case "bytes.NewReader", "bytes.NewBuffer":
+					tmpName := t.fresh("rd")
+					prefix = fmt.Sprintf("let %s := %s\n", tmpName, t.expr(ce.Args[0]))
+					ro = types.NewVar(ce.Pos(), t.pi.pkg, tmpName, types.NewSlice(types.Typ[types.Uint8]))
+					t.names[ro] = tmpName
+					t.used[tmpName] = true
+					ok = true
+				}
+			}
+		}
 		if !ok {
 			fail(c, "binary.Read from something that is not a reader variable")
 		}
@@ -353,7 +368,7 @@ func (t *fnTrans) effectCall(c *ast.CallExpr) (string, []string, bool) {
 			fmt.Fprintf(&b, "let %s := readBytes (%s).length %s\n", r, t.expr(lv), rn)
 			b.WriteString(t.assignObj(c, ro, r+".2.1"))
 			b.WriteString(t.assign(c, lv, fmt.Sprintf("(if (%s.2.2).isNone then %s.1 else %s)", r, r, t.expr(lv))))
-			return b.String(), []string{r + ".2.2"}, true
+			return prefix + b.String(), []string{r + ".2.2"}, true
 		}
 		sz := fixedSize(lt)
 		if sz == 0 {
@@ -363,7 +378,7 @@ func (t *fnTrans) effectCall(c *ast.CallExpr) (string, []string, bool) {
 		fmt.Fprintf(&b, "let %s := readBytes %d %s\n", r, sz, rn)
 		b.WriteString(t.assignObj(c, ro, r+".2.1"))
 		b.WriteString(t.assign(c, lv, fmt.Sprintf("(if (%s.2.2).isNone then %s %s.1 else %s)", r, dec, r, t.expr(lv))))
-		return b.String(), []string{r + ".2.2"}, true
+		return prefix + b.String(), []string{r + ".2.2"}, true
 	case "encoding/binary.Write":
 		// into an in-memory writer: the bytes are appended, the error is nil
 		wo, ok := t.readerVar(c.Args[0])
